@@ -182,10 +182,78 @@ def nt_c07(prog, out, monline=""):
     return out.startswith("(out (errors) ") and j is not None and int(j) > 0
 
 
+PUBLISHED_PRIO = {"Multiply": 9, "ShiftLeft": 9, "ShiftRight": 9, "Divide": 8, "And": 7, "Eq": 7, "NotEq": 7, "Great": 7,
+                  "Less": 7, "GreatEq": 7, "LessEq": 7, "Or": 6, "Xor": 6, "Plus": 5, "Minus": 4}
+
+
+def _published_tree(e):
+    """The tree of a source chain (expr VAL (OP VAL)...) over extension leaves and brackets under the
+    PUBLISHED table of DESIGN.md 3.3 (written here independently of Coq and of /repo: precedence
+    climbing, equal priorities associate to the left); None when a leaf is of another kind."""
+    def leaf(v):
+        if v[0] == "ext":
+            return ("L", int(v[2]))
+        if v[0] == "sub":
+            return _published_tree(v[1])
+        return None
+    vals = [leaf(e[1])] + [leaf(l[1]) for l in e[2:]]
+    ops = [l[0] for l in e[2:]]
+    if any(v is None for v in vals):
+        return None
+    pos = [0]
+
+    def climb(minp):
+        left = vals[pos[0]]
+        while pos[0] < len(ops) and PUBLISHED_PRIO[ops[pos[0]]] >= minp:
+            op = ops[pos[0]]
+            pos[0] += 1
+            right = climb(PUBLISHED_PRIO[op] + 1)
+            left = ("N", op, left, right)
+        return left
+    return climb(0)
+
+
+def extra_C07(prog, impl, monline):
+    """Independent of the model: for every let whose initialiser is a chain of extension leaves and
+    brackets, the tree read back from the implementation's root stack must be the tree of the
+    PUBLISHED priority table."""
+    if not impl.startswith("(out (errors) ") or "(ext " not in prog:
+        return None
+    try:
+        tp, ti = parse(prog), parse(impl)
+        fns = [t for t in tp[1:] if t[0] == "fn"]
+        roots = fns_of(ti)
+        for f, root in zip(fns, roots):
+            lets = [s for s in f[4][1:] if s[0] == "let"]
+            want = [_published_tree(s[4]) for s in lets]
+            ctx = [x for x in root[1:] if isinstance(x, list) and x and x[0] == "ctx"][0][1:]
+            env, got = {}, []
+            for ins in ctx:
+                if ins[0] == "Ext":
+                    env[int(ins[2])] = ("L", int(ins[1]))
+                elif ins[0] == "ExpressionOperation":
+                    def opnd(r):
+                        return env.get(int(r[2][1])) if isinstance(r[2], list) and r[2][0] == "reg" else None
+                    l, rr = opnd(ins[2]), opnd(ins[3])
+                    env[int(ins[4])] = ("N", ins[1], l, rr) if l is not None and rr is not None else None
+                elif ins[0] == "LetBinding":
+                    r = ins[2]
+                    got.append(env.get(int(r[2][1])) if isinstance(r[2], list) and r[2][0] == "reg" else None)
+            if len(got) != len(want):
+                continue
+            for k, (w, g) in enumerate(zip(want, got)):
+                if w is not None and w[0] == "N" and g != w:
+                    return "C07: let #%d: the emitted operations read back as a tree are not the tree of the published priority table" % k
+    except Exception:
+        return None
+    return None
+
+
 PROPS["C07"] = dict(
     title="Operator chains are bracketed by the documented priority table",
     projection="stacks_verdict",
-    extra_files=["C07b", "C07c"],
+    extra_files=["C07b", "C07c", "C07p"],
+    extra_check=extra_C07,
     monitors=[("C07", "accepted"), ("C07s", "accepted_wf")],
     domain="accepted",
     rule="every accepted well-formed program: at every use site (let, assignment, call argument, return, condition sides) "
@@ -538,6 +606,7 @@ def known_C01(prog, impl, monline, mname):
 
 PENDING = {}
 PENDING["C01"] = dict(
+    extra_files=["C07p"],
     title="An accepted program is well-formed (no ill-formed program passes)",
     projection="verdict",
     monitors=[("C01q", "all"), ("C01", "all")],
@@ -554,6 +623,7 @@ PENDING["C01"] = dict(
     assumptions=["rule set = DESIGN.md §3.1 as formalised in coq/Spec/FirstViolation.v"],
 )
 PENDING["C02"] = dict(
+    extra_files=["C07p"],
     title="A well-formed program is accepted (no spurious errors)",
     projection="verdict",
     monitors=[("C02", "all")],
@@ -565,6 +635,7 @@ PENDING["C02"] = dict(
     assumptions=["rule set = DESIGN.md §3.1 as formalised in coq/Spec/FirstViolation.v"],
 )
 PENDING["C14"] = dict(
+    extra_files=["C07p"],
     title="The first reported error is the first violated rule, with kind and name",
     projection="first_error",
     monitors=[("C14", "all")],
@@ -711,6 +782,7 @@ PENDING["C03"] = dict(
     assumptions=["events: declarations, reads, field reads, constant reads, assignments, calls, extension leaves, returns"],
 )
 PENDING["C04"] = dict(
+    extra_files=["C04r"],
     title="The emitted instruction stack is well-typed",
     projection="stacks",
     monitors=[("C04", "accepted_wf")],
@@ -722,6 +794,7 @@ PENDING["C04"] = dict(
     assumptions=["F7 enters through the operand rule (type of the instruction defining n-1); F2 is outside the domain (wf)"],
 )
 PENDING["C06"] = dict(
+    extra_files=["C06r"],
     title="Every computed value is the value the source expression denotes",
     projection="stacks",
     monitors=[("C06", "accepted_wf")],
@@ -736,7 +809,7 @@ PENDING["C19"] = dict(
     title="Extension expressions are opaque leaves evaluated once, in place",
     projection="stacks",
     monitors=[("C19", "wf")],
-    extra_files=["C19b"],
+    extra_files=["C19b", "C19r"],
     domain="accepted_wf",
     rule="accepted, well-formed programs with extension leaves in every expression position (operand, initialiser, argument, "
          "condition side, return value, inside brackets); non-trivial = at least three extension leaves and two blocks; "
